@@ -96,6 +96,9 @@ type Run struct {
 	seq      int
 	fatal    string // scheduler-level hard error (bad choice, divergence)
 	optDesc  []string
+	picking  bool // a scheduling decision is being made (wait predicates are running)
+	costAll  bool // every non-default choice counts (deviation bounding), not only preemptions
+	sel      int // case chosen by the last SelectWait of the running thread
 	// free-running mode: threads neither finished nor waiting
 	freeActive atomic.Int64
 }
@@ -123,6 +126,33 @@ func (r *Run) Go(name string, fn func()) {
 	}
 	t := &thread{id: len(r.threads), name: name, fn: fn, wake: make(chan struct{}, 1)}
 	r.threads = append(r.threads, t)
+}
+
+// SetNames names the first len(names) registered threads (threads created
+// through Spawn by library code get generic names).
+func (r *Run) SetNames(names []string) {
+	for i, n := range names {
+		if i < len(r.threads) {
+			r.threads[i].name = n
+		}
+	}
+}
+
+// MoveLast gives the named thread the highest id, i.e. makes it the last
+// choice of the default schedule (only valid inside the setup function).
+func (r *Run) MoveLast(name string) {
+	if r.cur != nil || len(r.choices) > 0 {
+		panic("vsched: MoveLast called after the execution started")
+	}
+	for i, t := range r.threads {
+		if t.name == name {
+			r.threads = append(append(r.threads[:i:i], r.threads[i+1:]...), t)
+			break
+		}
+	}
+	for i, t := range r.threads {
+		t.id = i
+	}
 }
 
 // Free reports whether this is a free-running (uncontrolled) execution.
@@ -289,6 +319,8 @@ func sigOf(running int, runEn bool, opts []*thread) uint32 {
 // pick makes the scheduling decision at one point. Returns nil when no thread
 // is enabled or the horizon is exceeded (status set accordingly).
 func (r *Run) pick() *thread {
+	r.picking = true
+	defer func() { r.picking = false }()
 	opts := r.optsBuf[:0]
 	runEn := false
 	running := -1
@@ -355,7 +387,7 @@ func (r *Run) pick() *thread {
 	r.pre = append(r.pre, int32(r.preempts))
 	r.runEn = append(r.runEn, runEn)
 	r.who = append(r.who, int32(opts[c].id))
-	if runEn && c > 0 {
+	if (runEn || r.costAll) && c > 0 {
 		r.preempts++
 	}
 	return opts[c]
@@ -374,6 +406,9 @@ func (r *Run) blockedDesc() string {
 func (r *Run) point(pred func() bool, why string, benign bool) {
 	if r.aborting {
 		return
+	}
+	if r.picking {
+		panic("vsched: scheduling point reached from inside a wait predicate (predicates must not call shimmed code): " + why)
 	}
 	t := r.cur
 	if t == nil {
@@ -535,6 +570,13 @@ type Config struct {
 	// re-executed up to this many times until it matches (Stats.Retries counts
 	// them); 0 = any divergence is a hard error.
 	DivergenceRetries int
+	// CostAll: deviation bounding instead of preemption bounding - EVERY choice
+	// other than the default one (running thread first, else lowest thread id)
+	// costs 1, also when the running thread is blocked or finished. With many
+	// mostly idle worker threads the free switches of pure preemption bounding
+	// multiply beyond reach; Bound then bounds deviations from the default
+	// schedule (every schedule with <= Bound deviations is executed once).
+	CostAll bool
 	// GCEvery: the collector is switched off while executions run and invoked
 	// manually every n executions (sync.Pool determinism). 0 = default 4096.
 	GCEvery int64
@@ -589,10 +631,15 @@ func execute(setup func(r *Run), prefix []int, expect []uint32, horizon int, fin
 // tryExecute is execute that returns scheduler-level hard errors (bad choice,
 // divergence from the recorded run) instead of panicking.
 func tryExecute(setup func(r *Run), prefix []int, expect []uint32, horizon int, final func(o *Outcome)) (*Outcome, string) {
+	return tryExecuteC(setup, prefix, expect, horizon, final, false)
+}
+
+func tryExecuteC(setup func(r *Run), prefix []int, expect []uint32, horizon int, final func(o *Outcome), costAll bool) (*Outcome, string) {
 	if current.Load() != nil {
 		panic("vsched: nested exploration")
 	}
 	r := newRun(prefix, expect, horizon)
+	r.costAll = costAll
 	current.Store(r)
 	defer current.Store(nil)
 	setup(r)
@@ -676,7 +723,7 @@ func Explore(cfg Config, setup func(r *Run), visit func(o *Outcome) bool) Stats 
 // cfg.DivergenceRetries times, then it is a hard error.
 func (x *Explorer) exec(prefix []int, expect []uint32, final func(o *Outcome)) *Outcome {
 	for try := 0; ; try++ {
-		o, fatal := tryExecute(x.setup, prefix, expect, x.cfg.Horizon, final)
+		o, fatal := tryExecuteC(x.setup, prefix, expect, x.cfg.Horizon, final, x.cfg.CostAll)
 		if fatal == "" {
 			return o
 		}
@@ -796,7 +843,7 @@ func (x *Explorer) explore(prefix []int, expect []uint32, depth int, from int) {
 			continue
 		}
 		cost := int(o.pre[i])
-		if o.runEn[i] {
+		if o.runEn[i] || x.cfg.CostAll {
 			cost++
 		}
 		if cost > x.cfg.Bound {
